@@ -110,7 +110,13 @@ def _is_equal(a: Any, b: Any) -> bool | None:  # noqa: PLR0911
     if isinstance(a, dict):
         return equal_dicts(a, b)
     if isinstance(a, np.ndarray):
-        return np.array_equal(a, b, equal_nan=True)
+        try:
+            return np.array_equal(a, b, equal_nan=True)
+        except TypeError:
+            # `equal_nan=True` applies `isnan`, which is not defined for object and string arrays
+            if a.dtype == object and not isinstance(a, np.ma.MaskedArray):
+                return a.shape == b.shape and all(_is_equal(x, y) for x, y in zip(a.flat, b.flat))
+            return np.array_equal(a, b)
     if isinstance(a, set):
         return a == b
     if isinstance(a, float | np.floating):
